@@ -561,7 +561,15 @@ func genField(dir, vfile, txt string) {
 	for _, n := range names {
 		fd := pi.funcs[n]
 		cn := "lits_" + strings.ReplaceAll(strings.TrimPrefix(n, "_"), ".", "_")
-		defs = append(defs, def{cn, "list Z", listTree(funcLits(fd))})
+		lits := funcLits(fd)
+		defs = append(defs, def{cn, "list Z", listTree(lits)})
+		var bigl []*big.Int
+		for _, v := range lits {
+			if v.BitLen() > 16 {
+				bigl = append(bigl, v)
+			}
+		}
+		defs = append(defs, def{"big" + cn, "list Z", listTree(bigl)})
 	}
 	sort.SliceStable(defs, func(i, j int) bool { return false })
 	emit(vfile, txt, defs)
